@@ -5,11 +5,11 @@ and a direct oracle.
 
 A case = a configuration (marker subclasses for a random subset of the 17 roles), generated font content
 (written to a scratch UFO for cases that load), a plain source font and a list of operations, each of which
-runs one creation path of the public API on a font built with the marker classes.  After every operation
-the adaptor sweeps every object reachable through the public API; the objects that were not there before
-(plus what the call returned) are reported as a set of (role, class) pairs.
+runs one creation path of the public API on a font built with the marker classes.  After every operation (or
+every k-th, see `schedule`) the adaptor sweeps every object reachable through the public API; the objects
+that were not there before (plus what the calls returned) are reported as a set of (role, class) pairs.
 
-* model side: `(path <name> (<roles>))` - the model answers, from the wiring and the configuration, which
+* model side: `(multi (<path name> (<roles>)) ...)` - the model answers, from the wiring and the configuration, which
   class each site of that creation path instantiates for those roles.  Which roles an operation creates is
   computed from the GENERATED CONTENT by `Tracker` (generator-side knowledge of what it generated), not
   from the implementation run.
@@ -33,7 +33,9 @@ RULE = ("fonts built with marker subclasses for a random subset of the 17 roles 
         "(newGlyph/newLayer, insertGlyph/copyDataFromGlyph from a plain font, dict/foreign-object/list appends of anchors "
         "and guidelines at glyph and font level, every instantiate* factory, point and segment pens, reverse/clockwise, "
         "split, removeSegment, appendPoint/insertPoint, decompose, reloadGlyphs/reloadLayers/reloadInfo..Lib after an "
-        "external edit, font/glyph/contour deserialisation incl. shallow-loaded contours, class properties); non-trivial = "
+        "external edit, font/glyph/contour deserialisation incl. shallow-loaded contours, class properties); the public API is "
+        "swept after every operation or only after every 2nd/3rd/last one (operations then run on partly loaded fonts), "
+        "info/kerning/groups/features are read eagerly or only when an operation touches them; non-trivial = "
         "at least one role customised AND at least one operation created an object of a customised role; distinct = "
         "distinct (configuration, content, op list)")
 ASSUMPTIONS = [
